@@ -3,7 +3,7 @@
 package consensus
 
 import (
-	"unsafe"
+	"sync"
 
 	"github.com/icon-project/goloop/common"
 	"github.com/icon-project/goloop/module"
@@ -87,7 +87,7 @@ func SimStateOf(c module.Consensus) SimState {
 			if vs == nil {
 				continue
 			}
-			v := SimVoteSetView{ID: uintptr(unsafe.Pointer(vs)), Round: r, Type: t, Slots: make([]SimVoteSlot, len(vs.msgs))}
+			v := SimVoteSetView{ID: simVoteSetID(vs), Round: r, Type: t, Slots: make([]SimVoteSlot, len(vs.msgs))}
 			for i, m := range vs.msgs {
 				if m != nil {
 					v.Slots[i] = SimVoteSlot{Voted: true, DecisionDigest: m.RoundDecisionDigest(), Nil: m.BlockPartSetIDAndNTSVoteCount == nil}
@@ -100,4 +100,29 @@ func SimStateOf(c module.Consensus) SimState {
 		}
 	}
 	return st
+}
+
+// vote set identities: the table keeps every vote set it has seen alive, so an
+// address is never reused for another set while the simulator still compares ids.
+var (
+	simVSMu  sync.Mutex
+	simVSIDs = map[*voteSet]uintptr{}
+)
+
+func simVoteSetID(vs *voteSet) uintptr {
+	simVSMu.Lock()
+	defer simVSMu.Unlock()
+	id, ok := simVSIDs[vs]
+	if !ok {
+		id = uintptr(len(simVSIDs) + 1)
+		simVSIDs[vs] = id
+	}
+	return id
+}
+
+// SimResetVoteSetIDs forgets all identities (call between simulated runs).
+func SimResetVoteSetIDs() {
+	simVSMu.Lock()
+	defer simVSMu.Unlock()
+	simVSIDs = map[*voteSet]uintptr{}
 }
